@@ -43,7 +43,12 @@ mod serde_json {
     /// `serde_json::Value`s, whose serialisation cannot fail by itself.
     #[verifier::external_body]
     pub fn to_writer_pretty<K: crate::JsonKey>(w: &mut std::io::StderrLock<'static>, v: &HashMap<K, Vec<Value>>) -> (r: Result<()>)
-        ensures r is Ok <==> crate::keys_serialisable(v@) && crate::stderr_write_ok(v@),
+        requires
+            // C11 "stderr is ONE JSON object": nothing has been written through this writer yet
+            crate::stderr_docs(*old(w)) == 0 && crate::stderr_newlines(*old(w)) == 0, // [V8.call.report_is_the_only_document]
+        ensures
+            r is Ok <==> crate::keys_serialisable(v@) && crate::stderr_write_ok(v@),
+            crate::stderr_docs(*final(w)) == crate::stderr_docs(*old(w)) + 1 && crate::stderr_newlines(*final(w)) == crate::stderr_newlines(*old(w)),
     { unimplemented!() }
     }
 }
@@ -57,6 +62,21 @@ mod process {
     /// unreachable, and the call site is an obligation of its own in the group (V8.post.exit1_only_if_error).
     #[verifier::external_body]
     pub fn exit(code: i32) -> !
+        requires
+            // in `process_violations` every exit goes through `exit_reported` (the rewrite of `process::exit(1)`): any
+            // other exit call (another status, or one the rewrite does not reach) is not allowed by C11
+            false, // [V8.call.exit_must_be_status_1_after_the_report]
+        ensures false
+    { std::process::exit(code) }
+
+    /// Rule E2: `process::exit(code)` in `process_violations`, with the stderr writer handed over as a witness of what
+    /// has been printed. C11: the process may exit early only with status 1 and only AFTER the complete report (one
+    /// JSON document and its newline) has gone to stderr.
+    #[verifier::external_body]
+    pub fn exit_reported(code: i32, w: &std::io::StderrLock<'static>) -> !
+        requires
+            code == 1, // [V8.call.exit_status_is_1]
+            crate::stderr_docs(*w) == 1 && crate::stderr_newlines(*w) == 1, // [V8.call.exit_only_after_the_report]
         ensures false
     { std::process::exit(code) }
     }
